@@ -38,8 +38,21 @@ def track_eq(ops_a, ops_b):
         return [[[F(e[0]), F(e[1]), None if e[2] is None else sorted(int(n) for n in e[2])] for e in b.bar] for b in t.bars]
     return [a == b, b == a, contents(a) == contents(b), ca == cb, cb == ca, len(a), len(b)]
 
-IMPL = {"track.run": machines.run_track, "comp.run": machines.run_comp, "comp.two": machines.run_comps, "comp.misc": comp_misc, "track.eq": track_eq}
-NO_MODEL = {"comp.misc", "track.eq", "comp.two"}
+def comp_eq(specs_a, specs_b):
+    """two compositions, each a list of tracks given by their histories: [a == b, b == a, a != b]"""
+    def build(specs):
+        c = Composition()
+        for ops in specs:
+            t = Track()
+            for op in ops:
+                machines.track_step(t, op)
+            c.add_track(t)
+        return c
+    a, b = build(specs_a), build(specs_b)
+    return [a == b, b == a, a != b]
+
+IMPL = {"comp.eq": comp_eq, "track.run": machines.run_track, "comp.run": machines.run_comp, "comp.two": machines.run_comps, "comp.misc": comp_misc, "track.eq": track_eq}
+NO_MODEL = {"comp.misc", "track.eq", "comp.two", "comp.eq"}
 def has_model(c):
     return c["fn"] not in NO_MODEL
 
@@ -158,6 +171,15 @@ def cases(tier, rng):
           ["select", [1, 0]], ["add_note", C4], ["select", [0, 1]], ["add_note", E3]]
     yield Case("comp.run", [sc], "composition/one-track-refuses", model=False, kind=("comp",))
     yield Case("comp.misc", [[]], "composition/misc", model=False, kind=("misc",))
+    # composition equality: the same tracks in the same order, as often as they occur
+    A_, B_, C_ = [["add", C4, 4]], [["add", CHORD, 2]], [["add", None, 4], ["add", E3, 4]]
+    for x, y in (([A_, B_], [A_, B_]), ([A_, B_], [B_, A_]), ([A_, A_, B_], [A_, B_, B_]), ([A_, B_, C_], [C_, B_, A_]), ([A_], [A_, A_]),
+                 ([], []), ([A_, B_, A_], [A_, A_, B_]), ([C_, C_], [C_, C_])):
+        yield Case("comp.eq", [x, y], "composition/equality", model=False, kind=("compeq",))
+    # chords given to a track as nested [name, octave] lists (and with a third element, the dynamics)
+    for instr in ("none",):      # (with an instrument attached the range test does not take this form: not documented there)
+        yield Case("track.run", [instr, [["add_pairs", [["C", 5], ["E", 5]], 4], ["add_pairs", [["A", 3]], 4], ["add_pairs", [["C", 4], ["G", 4], ["E", 5]], 2]]],
+                   "history/pair-lists", model=False, kind=("pairs",))
     # two (three) compositions in use at the same time: what is done to one must not reach the other
     inter = [
         [["add_track", 0, "none"], ["add_track", 1, "none"], ["add_track", 1, "none"], ["add_note", 0, C4], ["add_note", 1, E3], ["add_note", 0, CHORD]],
@@ -372,6 +394,21 @@ def oracle(c, obs):
             if st[0] is not True or len(flat) != i + 1 or flat[-1][2] != want:
                 return "a chord given as a list of names %s was stored as %s, expected %s" % (
                     c["args"][1][0][1], flat[-1][2] if flat else None, want)
+        return None
+    if kind[0] == "compeq":
+        x, y = c["args"]
+        want = x == y
+        return None if obs == [want, want, not want] else \
+            "composition ==, == the other way round, != give %s; the track lists are %s" % (obs, "the same" if want else "different (order and multiplicity count)")
+    if kind[0] == "pairs":
+        ops = c["args"][1]
+        for i, st in enumerate(obs[:len(ops)]):
+            if isinstance(st, Err) or isinstance(st[0], Err):
+                return "a chord given as a list of [name, octave] pairs raised"
+            flat = [e for b in st[1] for e in b[4]]
+            want = [[n, o] for n, o in ops[i][1]]
+            if st[0] is not True or len(flat) != i + 1 or flat[-1][2] != want:
+                return "a chord given as [name, octave] pairs %s was stored as %s" % (want, flat[-1][2] if flat else None)
         return None
     if kind[0] == "two":
         n, script = c["args"]
